@@ -151,16 +151,49 @@ Definition py_str_arg (v : val) : option str :=
   | VBool b => Some (if b then s_True else s_False)
   | VNil => Some s_None
   | VUndef => Some []
+  | VList _ | VDict _ => py_repr v
   | _ => None
   end.
 
+(** Decimal digits of a numeric string: [^-?[0-9]+$]. *)
+Fixpoint digits_val (s : str) (acc : Z) : option Z :=
+  match s with
+  | [] => Some acc
+  | ch :: s' =>
+      if ((48 <=? ch) && (ch <=? 57))%N then digits_val s' (acc * 10 + Z.of_N (ch - 48))
+      else None
+  end.
+
+Definition int_of_str (s : str) : option Z :=
+  match s with
+  | [] => None
+  | 45%N :: (_ :: _) as d => match d with _ :: d' => option_map Z.opp (digits_val d' 0) | [] => None end
+  | _ => digits_val s 0
+  end.
+
+(** A string that neither int() nor float() can parse: it is empty, or
+    contains an ASCII character that occurs in no numeric spelling (a letter
+    outside "infinity", "nan", "e", or one of < > ! , ;). *)
+Definition never_numeric_char (ch : N) : bool :=
+  existsb (N.eqb ch)
+    [98; 99; 100; 103; 104; 106; 107; 108; 109; 111; 112; 113; 114; 115; 117; 118; 119; 120; 122;
+     66; 67; 68; 71; 72; 74; 75; 76; 77; 79; 80; 81; 82; 83; 85; 86; 87; 88; 90;
+     60; 62; 33; 44; 59]%N.
+
+Definition not_a_number (s : str) : bool :=
+  match s with [] => true | _ => existsb never_numeric_char s end.
+
 (** num_arg(v, default=0) restricted to integers: [None] = outside the model
-    (numeric strings, floats). *)
+    (floats and unusual numeric spellings). *)
 Definition num_arg0 (v : val) : option Z :=
   match v with
   | VInt z => Some z
   | VBool b => Some (if b then 1 else 0)%Z
-  | VStr _ => None
+  | VStr s =>
+      match int_of_str s with
+      | Some z => Some z
+      | None => if not_a_number s then Some 0%Z else None
+      end
   | VForLoop _ _ _ _ => None
   | _ => Some 0%Z
   end.
@@ -290,9 +323,27 @@ Definition to_int_loop (v : val) : intres :=
   | VInt z => IOk z
   | VBool b => IOk (if b then 1 else 0)%Z
   | VUndef => IOk 0%Z
-  | VStr _ => IUnm
+  | VStr s =>
+      match int_of_str s with
+      | Some z => IOk z
+      | None => if not_a_number s then ITypeErr else IUnm   (* int(s): ValueError *)
+      end
   | VForLoop _ _ _ _ => IUnm
   | _ => ITypeErr
+  end.
+
+(** RangeLiteral._make_range: ValueError -> 0; TypeError escapes (outside). *)
+Definition to_int_range (v : val) : option Z :=
+  match v with
+  | VInt z => Some z
+  | VBool b => Some (if b then 1 else 0)%Z
+  | VUndef => Some 0%Z
+  | VStr s =>
+      match int_of_str s with
+      | Some z => Some z
+      | None => if not_a_number s then Some 0%Z else None
+      end
+  | _ => None
   end.
 
 Definition cmp_vals (op : cmpop) (a b : val) : eres :=
@@ -347,8 +398,8 @@ Fixpoint eval (fuel : nat) (c : ctx) (e : expr) {struct fuel} : eres :=
           | EOk a =>
               match eval f c hi with
               | EOk b =>
-                  match to_int_loop a, to_int_loop b with
-                  | IOk x, IOk y => if (y <? x)%Z then EOk (VRange 0 (-1)) else EOk (VRange x y)
+                  match to_int_range a, to_int_range b with
+                  | Some x, Some y => if (y <? x)%Z then EOk (VRange 0 (-1)) else EOk (VRange x y)
                   | _, _ => EUnm
                   end
               | r => r
@@ -393,6 +444,12 @@ Fixpoint eval (fuel : nat) (c : ctx) (e : expr) {struct fuel} : eres :=
                          | VUndef =>
                              (* hasattr(key, "__liquid__"): the key becomes None *)
                              match get_item obj VNil with
+                             | GOk v => walk v keys'
+                             | GMiss => EOk VUndef
+                             | GUnmodelled => EUnm
+                             end
+                         | VBool _ | VList _ | VDict _ | VRange _ _ =>
+                             match get_item obj k with
                              | GOk v => walk v keys'
                              | GMiss => EOk VUndef
                              | GUnmodelled => EUnm
